@@ -9,19 +9,32 @@
    the identity of the Arc allocation that ArcSwap::compare_and_swap compares
    with ptr_eq (the loaded Guard keeps the old allocation alive, so pointer
    equality = same allocation = same stamp).
-     readers  (get / contains_key / len / guard)   : one atomic load
+     readers  (get / contains_key / len / is_empty / guard) : one atomic load
      replace                                        : one atomic store
      writers  (insert / retain / remove) = ArcSwap::rcu:
          cur = load();                       -- step "call"  (thread then parks
          loop { new = f(&cur);                  at the pause point inside f)
                 prev = compare_and_swap(cur, new);      -- step "cas"
                 if ptr_eq(cur, prev) { return } else { cur = prev } }
+     entry(k).or_insert_with(f)  (the only method of Entry):
+         entry(k) = get(k): one atomic load that decides Occupied(v0) / Vacant;
+         Occupied: or_insert_with returns v0, nothing else happens;
+         Vacant:   v = f()    -- the thread can be parked here (f is the caller's)
+                   insert(k, v) -- an ordinary rcu writer with its own load,
+                                   closure executions and compare-and-swaps
+                   returns v
    One scheduler step of a thread = everything it does up to and including its
    next access to the shared cell, and the thread-local code after it up to
    the next pause point (thread-local code commutes with other threads).
-   remove() keeps its result in a variable [found] declared OUTSIDE the closure
-   in the code as originally written (fixed = false); the repaired code resets
-   it at the start of every closure execution (fixed = true). *)
+   The model has a parameter [cv : variant] for the code it stands for:
+     VAsWas  remove() keeps its result in a variable [found] declared OUTSIDE
+             the closure and only ever sets it (the code as originally written);
+     VFixed  the repaired code: [found] is reset at the start of every closure
+             execution (the code that exists now; all theorems are about it);
+     VAppend VFixed, except that a vacant entry is filled by appending to the
+             copy WITHOUT filtering the key out (a tempting "optimisation":
+             entry() has just seen that the key is absent); kept only for the
+             refutation lemma entry_append_refuted. *)
 From stdpp Require Import gmap.
 From Coq Require Import NArith.
 
@@ -63,14 +76,17 @@ Inductive fop :=
 | FGet (k : N)
 | FHas (k : N)
 | FLen
-| FIter.
+| FIter
+| FEmpty                 (* is_empty() *)
+| FEntry (k v : N).      (* entry(k).or_insert_with(|| v) *)
 
 Inductive fret :=
 | RUnit
 | ROpt (o : option N)
 | RBool (b : bool)
 | RNum (n : N)
-| RList (l : fvec).
+| RList (l : fvec)
+| RVal (v : N).          (* the V that or_insert_with returns *)
 
 (* the sequential behaviour of one call on the vector *)
 Definition fv_apply (o : fop) (l : fvec) : fvec * fret :=
@@ -83,6 +99,13 @@ Definition fv_apply (o : fop) (l : fvec) : fvec * fret :=
   | FHas k => (l, RBool (opt_is_some (fv_find k l)))
   | FLen => (l, RNum (N.of_nat (length l)))
   | FIter => (l, RList l)
+  | FEmpty => (l, RBool (N.eqb (N.of_nat (length l)) 0))
+  | FEntry k v =>
+      (* one thread alone: get, else insert *)
+      match fv_find k l with
+      | Some v0 => (l, RVal v0)
+      | None => (fv_insert k v l, RVal v)
+      end
   end.
 
 Fixpoint fv_run (ops : list fop) (l : fvec) : fvec * list fret :=
@@ -100,30 +123,48 @@ Definition fv_build (kvs : list (N * N)) : fvec :=
 Definition is_writer (o : fop) : bool :=
   match o with FIns _ _ | FRem _ | FRetain _ => true | _ => false end.
 
+Inductive variant := VAsWas | VFixed | VAppend.
+Definition resets_found (cv : variant) : bool := match cv with VAsWas => false | _ => true end.
+Definition entry_filters (cv : variant) : bool := match cv with VAppend => false | _ => true end.
+
+(* calls that end in ArcSwap::rcu: the writers, and a vacant entry's insert *)
+Definition is_rcu (o : fop) : bool :=
+  match o with FEntry _ _ => true | _ => is_writer o end.
+
 (* One execution of the closure given to rcu. [sticky] is remove()'s captured
-   variable [found]; insert/retain capture nothing that changes. *)
-Definition closure (fixed : bool) (o : fop) (sticky : option N) (snap : fvec) : fvec * option N :=
+   variable [found]; insert/retain capture nothing that changes. A vacant
+   entry's closure is insert()'s. *)
+Definition closure (cv : variant) (o : fop) (sticky : option N) (snap : fvec) : fvec * option N :=
   match o with
   | FRem k =>
-      let sticky0 := if fixed then None else sticky in
+      let sticky0 := if resets_found cv then None else sticky in
       let '(new, r) := fv_remove k snap in
       (new, match r with Some v => Some v | None => sticky0 end)
+  | FEntry k v =>
+      ((if entry_filters cv then fv_insert k v snap else snap ++ [(k, v)]), sticky)
   | _ => (fst (fv_apply o snap), sticky)
   end.
 
 Definition writer_ret (o : fop) (sticky : option N) : fret :=
-  match o with FRem _ => ROpt sticky | _ => RUnit end.
+  match o with FRem _ => ROpt sticky | FEntry _ v => RVal v | _ => RUnit end.
+
+(* what the successful compare-and-swap of a call is in the linearisation: the
+   call itself, except that a vacant entry's swap is the insert of its value *)
+Definition lin_op (o : fop) : fop := match o with FEntry k v => FIns k v | _ => o end.
+Definition lin_ret (o : fop) (r : fret) : fret := match o with FEntry _ _ => RUnit | _ => r end.
 
 Inductive pc :=
 | PIdle                                              (* about to call the head of its program *)
 | PClosure (stamp : N) (snap : fvec) (sticky : option N)   (* inside rcu, parked in the closure *)
-| PIter (snap : fvec).                               (* holds an IterGuard, has not iterated yet *)
+| PIter (snap : fvec)                                (* holds an IterGuard, has not iterated yet *)
+| PVacant.                                           (* holds Entry::Vacant, parked in the default function *)
 
 Record thread := MkThread { t_prog : list fop; t_pc : pc }.
 
 Inductive event :=
 | ECall (t : nat) (o : fop)
-| ELin (t : nat) (o : fop) (r : fret)      (* the access at which the call takes effect *)
+| ELin (t : nat) (o : fop) (r : fret)      (* an access at which the call takes effect; a vacant
+                                              entry has two: its lookup (FGet k, None) and its insert (FIns k v) *)
 | ERet (t : nat) (o : fop) (r : fret).
 
 (* g_fail: how many compare_and_swap attempts failed so far (bookkeeping for the
@@ -135,7 +176,7 @@ Definition g_init (init : fvec) (progs : list (list fop)) : gstate :=
 
 Definition set_thr (s : gstate) (t : nat) (th : thread) : list thread := <[t := th]> (g_thr s).
 
-Definition step (fixed : bool) (s : gstate) (t : nat) : gstate :=
+Definition step (cv : variant) (s : gstate) (t : nat) : gstate :=
   match g_thr s !! t with
   | None => s
   | Some th =>
@@ -159,18 +200,31 @@ Definition step (fixed : bool) (s : gstate) (t : nat) : gstate :=
                   (* store(new) *)
                   MkG (g_stamp s + 1)%N n (set_thr s t (MkThread rest PIdle))
                       (g_log s ++ [ECall t o; ELin t o RUnit; ERet t o RUnit]) (g_fail s)
+              | FEntry k v =>
+                  (* entry(k): get(k), one load *)
+                  match fv_find k (g_cur s) with
+                  | Some v0 =>
+                      (* Occupied(v0): or_insert_with returns it *)
+                      MkG (g_stamp s) (g_cur s) (set_thr s t (MkThread rest PIdle))
+                          (g_log s ++ [ECall t o; ELin t (FGet k) (ROpt (Some v0)); ERet t o (RVal v0)])
+                          (g_fail s)
+                  | None =>
+                      (* Vacant: the default function is entered and parks *)
+                      MkG (g_stamp s) (g_cur s) (set_thr s t (MkThread (o :: rest) PVacant))
+                          (g_log s ++ [ECall t o; ELin t (FGet k) (ROpt None)]) (g_fail s)
+                  end
               | _ =>
                   let r := snd (fv_apply o (g_cur s)) in
                   MkG (g_stamp s) (g_cur s) (set_thr s t (MkThread rest PIdle))
                       (g_log s ++ [ECall t o; ELin t o r; ERet t o r]) (g_fail s)
               end
           | PClosure st snap sticky =>
-              let '(new, sticky') := closure fixed o sticky snap in
+              let '(new, sticky') := closure cv o sticky snap in
               if N.eqb st (g_stamp s) then
                 (* compare_and_swap succeeds *)
                 let r := writer_ret o sticky' in
                 MkG (g_stamp s + 1)%N new (set_thr s t (MkThread rest PIdle))
-                    (g_log s ++ [ELin t o r; ERet t o r]) (g_fail s)
+                    (g_log s ++ [ELin t (lin_op o) (lin_ret o r); ERet t o r]) (g_fail s)
               else
                 (* it fails: cur = prev, the closure runs again and parks *)
                 MkG (g_stamp s) (g_cur s)
@@ -179,15 +233,20 @@ Definition step (fixed : bool) (s : gstate) (t : nat) : gstate :=
           | PIter snap =>
               MkG (g_stamp s) (g_cur s) (set_thr s t (MkThread rest PIdle))
                   (g_log s ++ [ERet t o (RList snap)]) (g_fail s)
+          | PVacant =>
+              (* map.insert(key, v): rcu's load; the closure is entered and parks *)
+              MkG (g_stamp s) (g_cur s)
+                  (set_thr s t (MkThread (o :: rest) (PClosure (g_stamp s) (g_cur s) None)))
+                  (g_log s) (g_fail s)
           end
       end
   end.
 
-Definition exec (fixed : bool) (sched : list nat) (s : gstate) : gstate :=
-  fold_left (step fixed) sched s.
+Definition exec (cv : variant) (sched : list nat) (s : gstate) : gstate :=
+  fold_left (step cv) sched s.
 
-Definition run (fixed : bool) (init : fvec) (progs : list (list fop)) (sched : list nat) : gstate :=
-  exec fixed sched (g_init init progs).
+Definition run (cv : variant) (init : fvec) (progs : list (list fop)) (sched : list nat) : gstate :=
+  exec cv sched (g_init init progs).
 
 (* After the schedule of a case is used up the harness lets thread 0 run to
    completion, then thread 1, ... ; so does the model. *)
@@ -197,24 +256,30 @@ Definition thread_done (s : gstate) (t : nat) : bool :=
   | None => true
   end.
 
-Fixpoint run_thread (fixed : bool) (fuel : nat) (s : gstate) (t : nat) : gstate :=
+Fixpoint run_thread (cv : variant) (fuel : nat) (s : gstate) (t : nat) : gstate :=
   match fuel with
   | O => s
-  | S f => if thread_done s t then s else run_thread fixed f (step fixed s t) t
+  | S f => if thread_done s t then s else run_thread cv f (step cv s t) t
   end.
 
 Definition ops_left (s : gstate) : nat :=
   fold_right (fun th n => (length (t_prog th) + n)%nat) O (g_thr s).
 
-Definition drain (fixed : bool) (s : gstate) : gstate :=
-  fold_left (fun s t => run_thread fixed (3 * ops_left s + 3) s t) (seq 0 (length (g_thr s))) s.
+Definition drain (cv : variant) (s : gstate) : gstate :=
+  fold_left (fun s t => run_thread cv (3 * ops_left s + 3) s t) (seq 0 (length (g_thr s))) s.
 
-Definition full_run (fixed : bool) (init : fvec) (progs : list (list fop)) (sched : list nat) : gstate :=
-  drain fixed (run fixed init progs sched).
+Definition full_run (cv : variant) (init : fvec) (progs : list (list fop)) (sched : list nat) : gstate :=
+  drain cv (run cv init progs sched).
 
 (* the schedule on which remove() as originally written hands one entry to two removers *)
 Definition bad_progs : list (list fop) := [[FIns 1 7]; [FRem 1]; [FRem 1]]%N.
 Definition bad_sched : list nat := [0; 0; 1; 2; 2; 1; 1]%nat.
+
+(* two tasks ask for the entry of the same absent key before either writes;
+   a third one then looks at the map *)
+Definition race_progs : list (list fop) := [[FEntry 1 7]; [FEntry 1 8]; [FLen; FRem 1; FGet 1]]%N.
+Definition race_sched : list nat := [0; 1; 0; 0; 1; 1]%nat.
+Definition race_sched_all : list nat := (race_sched ++ [2; 2; 2; 2])%nat.
 
 (* ---------- what is observed ---------- *)
 
@@ -244,6 +309,7 @@ Definition fm_next (o : fop) (m : amap) : amap :=
   | FRem k => delete k m
   | FRetain f => filter (fun kv => f (fst kv) (snd kv) = true) m
   | FRepl n => fv_abs n
+  | FEntry k v => match m !! k with Some _ => m | None => <[k := v]> m end
   | _ => m
   end.
 
@@ -254,6 +320,8 @@ Definition fm_ret_ok (o : fop) (m : amap) (r : fret) : Prop :=
   | FRem k | FGet k => r = ROpt (m !! k)
   | FHas k => r = RBool (opt_is_some (m !! k))
   | FLen => r = RNum (N.of_nat (size m))
+  | FEmpty => r = RBool (N.eqb (N.of_nat (size m)) 0)
+  | FEntry k v => r = RVal (default v (m !! k))
   | FIter => exists l, r = RList l /\ NoDup (fst <$> l) /\ fv_abs l = m
   end.
 
@@ -275,26 +343,44 @@ Fixpoint fv_legal (h : list (fop * fret)) (l l_end : fvec) : Prop :=
 Definition op_wf (o : fop) : Prop :=
   match o with FRepl n => NoDup (fst <$> n) | _ => True end.
 
-(* per-thread shape of the log: completed calls as Call/Lin/Ret triples in
-   program order, then what the pending call has logged so far *)
-Definition triple (t : nat) (c : fop * fret) : list event :=
-  [ECall t (fst c); ELin t (fst c) (snd c); ERet t (fst c) (snd c)].
+(* per-thread shape of the log: completed calls in program order, each one as
+   its call event, its linearisation point(s), its return event; then what the
+   pending call has logged so far *)
+Definition done_call : Type := fop * fret * list (fop * fret).   (* call, result, linearisation points *)
+Definition call_op (c : done_call) : fop := fst (fst c).
+Definition elin (t : nat) (c : fop * fret) : event := ELin t (fst c) (snd c).
+Definition block (t : nat) (c : done_call) : list event :=
+  ECall t (call_op c) :: (elin t <$> snd c) ++ [ERet t (call_op c) (snd (fst c))].
+
+(* every call takes effect at ONE access of the cell, with the result it
+   returns - except entry(k).or_insert_with(|| v): on an occupied entry it is
+   the lookup that found v0 (returned); on a vacant one it is the lookup that
+   found nothing and, later, the insert of its own value v (returned) *)
+Definition call_ok (c : done_call) : Prop :=
+  match call_op c with
+  | FEntry k v =>
+      (exists v0, snd (fst c) = RVal v0 /\ snd c = [(FGet k, ROpt (Some v0))]) \/
+      (snd (fst c) = RVal v /\ snd c = [(FGet k, ROpt None); (FIns k v, RUnit)])
+  | o => snd c = [(o, snd (fst c))]
+  end.
 
 Definition pending_ok (t : nat) (rest : list fop) (p : list event) : Prop :=
   p = [] \/
   exists o rest', rest = o :: rest' /\
-    (p = [ECall t o] \/ exists r, p = [ECall t o; ELin t o r]).
+    (p = [ECall t o] \/ (exists r, p = [ECall t o; ELin t o r]) \/
+     (exists k v, o = FEntry k v /\ p = [ECall t o; ELin t (FGet k) (ROpt None)])).
 
 Definition thread_log_ok (t : nat) (prog : list fop) (evs : list event) : Prop :=
-  exists (done : list (fop * fret)) (rest : list fop) (p : list event),
-    prog = (fst <$> done) ++ rest /\
-    evs = concat (triple t <$> done) ++ p /\
+  exists (done : list done_call) (rest : list fop) (p : list event),
+    prog = (call_op <$> done) ++ rest /\
+    evs = concat (block t <$> done) ++ p /\
+    Forall call_ok done /\
     pending_ok t rest p.
 
 (* counting form of "an entry that is removed is handed to exactly one remover" *)
 Definition adds_key (k : N) (c : fop * fret) : bool :=
   match fst c with
-  | FIns k' _ => N.eqb k' k
+  | FIns k' _ | FEntry k' _ => N.eqb k' k
   | FRepl n => opt_is_some (fv_find k n)
   | _ => false
   end.
